@@ -51,12 +51,72 @@ def sig_positions(tokens):
             if type(t).__name__ not in ('TokSpace', 'TokNewline', 'TokComment')]
 
 
-def check_program(src, model, stmts, case, chunks=None, toks=None):
+WARMUP = (b'lives = 3\nfunction _update()\n if (btn(4)) lives -= 1\nend\n',
+          b'w = window\n  :size(64, 32)\nprint("score: "..score, 0, 0, 7)\nflip()\n',
+          b'for i=1,10 do t[i]=f(i)(i) end if (a) b() else c()\n')
+
+
+class _Parsed:
+    def __init__(self, tokens, root):
+        self.tokens, self.root = tokens, root
+
+
+def parse(src, chunks, how):
+    """how: 'fresh' (Lua.from_lines), 'incremental' (one Lua object fed the chunks by successive update_from_lines
+    calls - each chunk ends where a complete program ends), 'reused_parser' (a Parser that has parsed other programs
+    before; process_tokens is documented as callable repeatedly on one instance)."""
     from pico8.lua import lua as plua
+    from pico8.lua import lexer, parser
+    if how == 'fresh':
+        return plua.Lua.from_lines(chunks if chunks is not None else [src], version=8)
+    if how == 'incremental':
+        l = plua.Lua(version=8)
+        for c in chunks:
+            l.update_from_lines([c])
+        return l
+    p = parser.Parser(version=8)
+    for w in WARMUP:
+        lx = lexer.Lexer(version=8)
+        lx.process_lines([w])
+        p.process_tokens(lx.tokens)
+    lx = lexer.Lexer(version=8)
+    lx.process_lines(chunks if chunks is not None else [src])
+    p.process_tokens(lx.tokens)
+    return _Parsed(p._tokens, p.root)
+
+
+def program_prefix_chunks(src, stmts, ref):
+    """Cut src after line ends that are followed by the first token of a top-level statement and do not lie inside
+    a multi-line token: every prefix is then a complete program."""
+    sig = reflex.significant(ref)
+    starts = {sig[s[2]].start for s in stmts if s[4] == 0 and s[2] < len(sig)}
+    cuts = []
+    inside = set()
+    for t in ref:
+        if b'\n' in t.text and t.kind in ('string', 'comment'):
+            inside.update(range(t.start + 1, t.end))
+    pos = 0
+    nxt = sorted(starts)
+    for i in range(len(src)):
+        if src[i:i + 1] == b'\n' and (i + 1) not in inside and i + 1 < len(src):
+            # the next significant token after offset i+1
+            following = [st for st in nxt if st >= i + 1]
+            between = [t for t in sig if i + 1 <= t.start < (following[0] if following else len(src) + 1)]
+            if following and not between:
+                cuts.append(i + 1)
+    chunks = []
+    for c in cuts + [len(src)]:
+        if c > pos:
+            chunks.append(src[pos:c])
+            pos = c
+    return chunks
+
+
+def check_program(src, model, stmts, case, chunks=None, toks=None, how='fresh'):
     try:
-        l = plua.Lua.from_lines(chunks if chunks is not None else [src], version=8)
+        l = parse(src, chunks, how)
     except Exception as e:
-        raise Violation('valid program rejected: %r -- %s' % (e, show(src, 200)), case, 'accept')
+        raise Violation('valid program rejected (%s): %r -- %s' % (how, e, show(src, 200)), case, 'accept')
     root = l.root
     sig = sig_positions(l.tokens)
     if sig:
@@ -145,8 +205,19 @@ def one(ctx, seed, mode):
         chunks = [ln + b'\n' for ln in lay.src.split(b'\n')]
         chunks[-1] = chunks[-1][:-1]
         check_program(lay.src, model, stmts, dict(case, chunked=True), [c for c in chunks if c], toks=toks)
+    extra = set()
+    if seed[1] % 4 == 0:
+        check_program(lay.src, model, stmts, dict(case, how='reused_parser'), toks=toks, how='reused_parser')
+        extra.add('reused_parser')
+    elif seed[1] % 4 == 1 and lay.nl != b'\r':
+        ref = luagen.verify(lay)
+        pieces = program_prefix_chunks(lay.src, stmts, ref)
+        if len(pieces) >= 2:
+            check_program(lay.src, model, stmts, dict(case, how='incremental'), pieces, toks=toks, how='incremental')
+            extra.add('incremental_%d_pieces' % min(len(pieces), 4))
+            extra.add('incremental')
     if ctx is not None:
-        labs = sorted(shortif_contexts(stmts, toks) | {'mode_' + mode})
+        labs = sorted(shortif_contexts(stmts, toks) | {'mode_' + mode} | extra)
         if lay.comments:
             labs.append('comments')
         nontrivial = len(stmts) >= 3 or 'shortif' in labs or any(s[4] >= 1 for s in stmts)
@@ -185,6 +256,11 @@ def replay(case):
             chunks = [ln + b'\n' for ln in lay.src.split(b'\n')]
             chunks[-1] = chunks[-1][:-1]
             check_program(lay.src, model, stmts, case, [c for c in chunks if c], toks=toks)
+        if case.get('how') == 'reused_parser':
+            check_program(lay.src, model, stmts, case, toks=toks, how='reused_parser')
+        if case.get('how') == 'incremental':
+            pieces = program_prefix_chunks(lay.src, stmts, luagen.verify(lay))
+            check_program(lay.src, model, stmts, case, pieces, toks=toks, how='incremental')
 
 
 def vacuity(total, tier):
@@ -193,7 +269,7 @@ def vacuity(total, tier):
     if total.classes.get('shortif', 0) < 0.10 * ev:
         msgs.append('only %d of %d programs contain a short-if' % (total.classes.get('shortif', 0), ev))
     for lab in ('shortif_else', 'shortif_in_block', 'shortif_at_end', 'shortif_followed', 'shortif_laststat',
-                'comments', 'mode_minimal', 'mode_lines'):
+                'comments', 'mode_minimal', 'mode_lines', 'reused_parser', 'incremental'):
         if total.classes.get(lab, 0) < 5:
             msgs.append('class %s seen %d times' % (lab, total.classes.get(lab, 0)))
     if total.excluded.get('generator_selfcheck_failed', 0) > 0.02 * ev:
